@@ -81,7 +81,7 @@ def check(ctx):
     import json
     BAD = ["int = ;", "\"unterminated", "0b;", "x = /* open", "1e;", "qubit[ q;", "OPENQASM 3.x;"]
     icases, expect = [], []
-    for depth in (1, 2, 3, 4):
+    for depth in (1, 2, 3, 4, 11, 12, 17, 24):
         for bad_at in range(0, depth + 1):            # 0 = the main file, depth = the deepest file; plus: no error
             for bad in BAD[: (3 if q else len(BAD))] + [None]:
                 names = [f"f{k}.inc" for k in range(1, depth + 1)]
